@@ -9,13 +9,31 @@ from . import core
 
 
 def setup():
-    """build everything from files on disk (offline): regenerate translated units, lake build, driver smoke test"""
+    """build everything from files on disk (offline): regenerate translated units, lake build every property
+    module and driver.  A module that fails to build is reported and left to its own check (which then reports the
+    broken obligation); setup itself fails only if the core of the library does not build."""
+    import glob
     from translator import regen_all
-    regen_all.main()
-    ok, log = core.lake_build(["GemVerif"])
-    print(log[-3000:])
+    try:
+        regen_all.main()
+    except Exception as e:  # a translation failure must not block the build of the rest
+        print(f"regen: {type(e).__name__}: {e}")
+    ok, log = core.lake_build(["GemVerif.Num", "GemVerif.NumReal", "GemVerif.DriverUtil"])
+    print(log[-1500:])
     if not ok:
         return 2
+    mods = []
+    for sub in ("Props", "Drivers"):
+        for f in sorted(glob.glob(os.path.join(core.LEAN, "GemVerif", sub, "*.lean"))):
+            mods.append(f"GemVerif.{sub}." + os.path.basename(f)[:-5])
+    ok, log = core.lake_build(mods)
+    print(log[-3000:])
+    if not ok:
+        # find out which ones failed, one by one (cheap: everything that built is cached)
+        for m in mods:
+            o, _ = core.lake_build([m])
+            if not o:
+                print(f"SETUP-WARNING: {m} does not build")
     return 0
 
 
